@@ -138,6 +138,20 @@ func RunNewEpic(opts GlobalOptions) error {
 	return nil
 }
 
+// withCurrentState re-reads a just-created task after its follow-up updates, so that
+// the JSON reply reports the state a following read shows rather than the "todo" it
+// was created with.
+func withCurrentState(dir string, created createOutput) (createOutput, error) {
+	graph, err := loadGraph(dir)
+	if err != nil {
+		return created, err
+	}
+	if task, ok := graph.Tasks[created.ID]; ok {
+		created.State = task.State
+	}
+	return created, nil
+}
+
 func RunNewTask(opts GlobalOptions) error {
 	if opts.BodyStdin {
 		if err := validateBodyStdinExclusions(opts.BodyFlag); err != nil {
@@ -168,6 +182,11 @@ func RunNewTask(opts GlobalOptions) error {
 			agentID := opts.AgentID
 			if err := applySetUpdates(dir, opts, created.ID, updates, agentID, true); err != nil {
 				return err
+			}
+			if opts.JSON {
+				if created, err = withCurrentState(dir, created); err != nil {
+					return err
+				}
 			}
 		}
 
@@ -205,6 +224,11 @@ func RunNewTask(opts GlobalOptions) error {
 			agentID := opts.AgentID
 			if err := applySetUpdates(dir, opts, created.ID, updates, agentID, true); err != nil {
 				return err
+			}
+			if opts.JSON {
+				if created, err = withCurrentState(dir, created); err != nil {
+					return err
+				}
 			}
 		}
 
@@ -254,6 +278,11 @@ func RunNewTask(opts GlobalOptions) error {
 			agentID := opts.AgentID
 			if err := applySetUpdates(dir, opts, created.ID, updates, agentID, true); err != nil {
 				return err
+			}
+			if opts.JSON {
+				if created, err = withCurrentState(dir, created); err != nil {
+					return err
+				}
 			}
 		}
 	}
